@@ -5,6 +5,7 @@ import os
 import checks_flow as cf
 import checks_pool as cp
 import checks_spl as cs
+import checks_grid as cg
 import gen
 import vlib
 from runner import Check
@@ -162,7 +163,27 @@ def plan_C13(ck):
     ck.traces(cs.spl_exact_cases(ck.seed + 13, 300 if q else 6000, "C13"), ["C13"], tag="c13", sample_events=("Spl",))
 
 
-PLANS = {"C12": plan_C12, "C13": plan_C13, "C10": plan_C10, "C11": plan_C11, "C09": plan_C09, "C16": plan_C16, "C01": plan_C01, "C02": plan_C02, "C03": plan_C03, "C04": plan_C04, "C05": plan_C05, "C06": plan_C06,
+GRID_SPEC = ("GridTrace.tla", "GridTrace.cfg")
+
+
+def plan_C07(ck):
+    ck.traces(cg.neighbourhood_cases(ck.seed + 7, ck.tier, "C07"), ["C07"], tag="c07", spec=GRID_SPEC, sample_events=("Q",))
+    ck.ev.cov["exhaustive"] = True
+
+
+def plan_C17(ck):
+    ck.traces(cg.status_cases(ck.seed + 17, ck.tier, "C17"), ["C17"], tag="c17", spec=GRID_SPEC, sample_events=("GridNew",))
+    ck.traces(cg.base_level_cases(ck.seed + 117, 60 if ck.tier == "quick" else 1500, "C17bl"), ["C17"], tag="c17bl",
+              sample_events=("New",))
+    ck.ev.cov["exhaustive"] = True
+
+
+def plan_C18(ck):
+    q = ck.tier == "quick"
+    ck.traces(cg.mesh_cases(ck.seed + 18, 200 if q else 5000, "C18"), ["C18"], tag="c18", spec=GRID_SPEC, sample_events=("GridNew",))
+
+
+PLANS = {"C07": plan_C07, "C17": plan_C17, "C18": plan_C18, "C12": plan_C12, "C13": plan_C13, "C10": plan_C10, "C11": plan_C11, "C09": plan_C09, "C16": plan_C16, "C01": plan_C01, "C02": plan_C02, "C03": plan_C03, "C04": plan_C04, "C05": plan_C05, "C06": plan_C06,
          "C19": plan_C19}
 
 
